@@ -165,6 +165,25 @@ func (g gen) mac() net.HardwareAddr {
 	}
 	return net.HardwareAddr{r.Byte() &^ 1, r.Byte(), r.Byte(), r.Byte(), r.Byte(), r.Byte()}
 }
+// srcMAC is a MAC argument that is NOT the Ethernet destination (source Addr of a send function, ARP sender or
+// target, NA target, DHCP chaddr): the NIC MAC, none, a foreign one, a short and a long one.
+func (g gen) srcMAC(c nicCfg) net.HardwareAddr {
+	r := g.rng
+	switch r.Intn(10) {
+	case 0, 1:
+		return c.hostMAC
+	case 2:
+		return nil
+	case 3:
+		return net.HardwareAddr{0x02, r.Byte(), r.Byte()}
+	case 4:
+		return net.HardwareAddr{0x02, r.Byte(), r.Byte(), r.Byte(), r.Byte(), r.Byte(), r.Byte(), r.Byte()}
+	case 5:
+		return net.HardwareAddr{0, 0, 0, 0, 0, 0}
+	}
+	return g.mac()
+}
+
 func (g gen) ip4() netip.Addr {
 	r := g.rng
 	switch r.Intn(10) {
@@ -341,10 +360,15 @@ func main() {
 		if rng.Chance(10) {
 			id, seq = fmt.Sprint(rng.Pick(0, 1, 255, 256, 65535)), fmt.Sprint(rng.Pick(0, 1, 255, 256, 65535))
 		}
-		do("echo4", c, lib.Hex(g.mac()), ipTok(g.ip4()), lib.Hex(g.mac()), ipTok(g.ip4()), id, seq, g.seed())
-		do("echo6", c, lib.Hex(g.mac()), ipTok(g.ip6()), lib.Hex(g.mac()), ipTok(g.ip6()), id, seq, g.seed())
-		do("ns", c, lib.Hex(g.mac()), ipTok(g.ip6()), lib.Hex(g.mac()), ipTok(g.ip6()), ipTok(g.ip6()), g.seed())
-		do("na", c, lib.Hex(g.mac()), ipTok(g.ip6()), lib.Hex(g.mac()), ipTok(g.ip6()), lib.Hex(g.mac()), ipTok(g.ip6()), g.seed())
+		// the source Addr's MAC is never the Ethernet source (that is the NIC MAC): every class of it must give the same frame
+		do("echo4", c, lib.Hex(g.srcMAC(c)), ipTok(g.ip4()), lib.Hex(g.mac()), ipTok(g.ip4()), id, seq, g.seed())
+		do("echo6", c, lib.Hex(g.srcMAC(c)), ipTok(g.ip6()), lib.Hex(g.mac()), ipTok(g.ip6()), id, seq, g.seed())
+		do("ns", c, lib.Hex(g.srcMAC(c)), ipTok(g.ip6()), lib.Hex(g.mac()), ipTok(g.ip6()), ipTok(g.ip6()), g.seed())
+		tmac := g.mac() // NA target MAC = TLLA option: mostly valid, sometimes a MAC that cannot be advertised (refused)
+		if rng.Chance(25) {
+			tmac = g.srcMAC(c)
+		}
+		do("na", c, lib.Hex(g.srcMAC(c)), ipTok(g.ip6()), lib.Hex(g.mac()), ipTok(g.ip6()), lib.Hex(tmac), ipTok(g.ip6()), g.seed())
 		if rng.Chance(5) { // wrong address family: the functions must refuse without sending
 			do("echo4", c, lib.Hex(g.mac()), ipTok(g.ip6()), lib.Hex(g.mac()), ipTok(g.ip4()), id, seq, g.seed())
 			do("echo6", c, lib.Hex(g.mac()), ipTok(g.ip6()), lib.Hex(g.mac()), ipTok(g.ip4()), id, seq, g.seed())
@@ -424,7 +448,7 @@ func carryBoundary(r *lib.Run, g gen, do func(kind string, c nicCfg, args ...str
 		// UDP over IPv6 (sleep proxy response): DNS id steered so that the library's Checksum of pseudo header +
 		// datagram is 0 (sent as 0xffff), 1, 0xffff, 0xfffe
 		s6 := g.ip6()
-		pre := []string{lib.Hex(c.hostMAC), ipTok(s6), lib.Hex(g.mac()), ipTok(netip.MustParseAddr("ff02::fb")), "5353"}
+		pre := []string{lib.Hex(g.srcMAC(c)), ipTok(s6), lib.Hex(g.mac()), ipTok(netip.MustParseAddr("ff02::fb")), "5353"}
 		probe := r.Exec("sleepproxy", append(append(c.toks(), pre...), "0000"))
 		if f := lib.UnHex(probe); len(f) > 62+12 && f[12] == 0x86 {
 			udp := append([]byte{}, f[54:]...)
